@@ -78,6 +78,9 @@ def run(spec, start, ext_ops, cfg, pre_start_ops=(), max_steps=400, query_rng=No
     if is_ao and cfg.get('pre_subscribe'):
       # the object subscribes BEFORE start_at: a SUBSCRIBE_META_SIGNAL event is posted lifo and is the first event it dispatches
       chart.subscribe(Event(signal='VT_PRE_SUB'), queue_type=cfg['pre_subscribe'])
+    if is_ao and cfg.get('pre_publish'):
+      # ... and / or publishes before start_at (a PUBLISH_META_SIGNAL event, posted lifo as well)
+      chart.publish(Event(signal='VT_PRE_PUB'))
     for kind, sig in pre_start_ops:
       (chart.post_fifo if kind == 'fifo' else chart.post_lifo)(Event(signal=sig))
     st = []
@@ -94,7 +97,7 @@ def run(spec, start, ext_ops, cfg, pre_start_ops=(), max_steps=400, query_rng=No
     except Exception as ex:
       res.error = ('%s: %s' % (type(ex).__name__, ex), -1)
       return res
-    if is_ao and (cfg.get('pre_subscribe') or pre_start_ops):
+    if is_ao and (cfg.get('pre_subscribe') or cfg.get('pre_publish') or pre_start_ops):
       # events queued before start_at: the object's thread works through them on its own
       while len(chart.queue) != 0 or chart._vt_busy:
         if not sem.acquire(timeout=20):
